@@ -28,6 +28,7 @@ struct Profile {
     bool final_save_reload = false;
     unsigned benign_pct = 0;         // benign I/O faults on saves and loads (percent of calls)
     bool analog_only_ok = true;
+    unsigned pct_space_names = 0;    // group / parameter / point names that end in blanks (excluded where round trips are compared)
 };
 
 std::string gen_name(Rng &r, unsigned maxLen = 12);
